@@ -330,6 +330,8 @@ type Job struct {
 	Setup        func(tr *Tr, a *Act, st *State, args []Term)
 	CheckPost    bool
 	IsRoot       func(fn *ssa.Function) bool
+	TypeInv      bool
+	LockMode     bool
 }
 
 // translate builds the VC for one root function.
@@ -337,7 +339,7 @@ func (e *Engine) translate(job *Job) *Tr {
 	fn := job.Fn
 	tr := &Tr{eng: e, root: fn, comps: map[string]*Component{}, oblCount: map[string]int{}, panicMode: job.PanicMode, frameMode: job.Frame,
 		initHeap: map[string]*HeapV{}, usedStubs: map[string]bool{}, inlined: map[string]bool{}, havocked: map[string]bool{},
-		declared: map[string]bool{}, unfolded: map[string]bool{}, usedContracts: map[string]bool{}, clauseFilter: job.ClauseFilter, isRoot: job.IsRoot}
+		declared: map[string]bool{}, unfolded: map[string]bool{}, usedContracts: map[string]bool{}, usedAssumed: map[string]bool{}, clauseFilter: job.ClauseFilter, isRoot: job.IsRoot, typeInvMode: job.TypeInv, lockMode: job.LockMode}
 	tr.inlineBudget = 200 - 2*len(fn.Blocks)
 	if tr.inlineBudget < 0 {
 		tr.inlineBudget = 0
@@ -350,10 +352,12 @@ func (e *Engine) translate(job *Job) *Tr {
 	st := &State{reach: "true", heap: map[string]*HeapV{}, alloc: tr.alloc0, defers: map[*ssa.Defer]Term{}, owned: map[string]ownedCell{}}
 	// parameters: arbitrary values that exist at entry
 	args := make([]Term, len(fn.Params))
+	var paramInv []func()
 	for i, p := range fn.Params {
 		args[i] = tr.freshConst("p_"+p.Name(), a.sortOf(p.Type()))
 		a.assumeWF(st, p.Type(), args[i], 2)
 		tr.assumePreExisting(st, p.Type(), args[i])
+		paramInv = append(paramInv, func() { tr.assume(tr.typeInvFor(p.Type(), args[i], st), "data invariant of parameter "+p.Name()) })
 	}
 	for _, fv := range fn.FreeVars {
 		t := tr.freshConst("fv_"+fv.Name(), a.sortOf(fv.Type()))
@@ -365,6 +369,9 @@ func (e *Engine) translate(job *Job) *Tr {
 		a.vals[p] = args[i]
 	}
 	a.entryState = st.copy()
+	for _, f := range paramInv {
+		f()
+	}
 	a.assumeRequires(st)
 	if job.Setup != nil {
 		job.Setup(tr, a, st, args)
